@@ -61,6 +61,11 @@ def make_mail(i, rnd):
         t["has_date"] = False
         if i % 2:
             hdrs.append(rnd.choice(["Date: not a date at all", "Date: 99 Foo 2021 25:61:00 +9999", "Date: "]))
+    if i % 4 == 2:
+        # a folded header whose encoded words split one multi-byte character between them (pure ASCII on the wire; the
+        # server's first way of rendering such a message fails and it falls back to a second one)
+        hdrs.append("X-Weather: =?utf-8?Q?=E2=98=80=EF=B8=8F=20Napa=20Weekend=20Forecast:=2080=20degrees=20=E2=98=80=EF?=\r\n"
+                    "\t=?utf-8?Q?=B8=8F=20=E2=80=93=20Join=20us=20for=20Carnival=20of=20Flavor!?=")
     add("X-Tag", f"tagtok{i}")
     if i % 3 == 0:
         add("X-Tag", f"secondtag{i}")
